@@ -268,6 +268,37 @@ def variant(H, spec, f, src, kind, name, dflt):
                     'wrapper received %r binding to %r, the call binds to %r' % (rec[0], seen, exp))
 
 
+def variant_multi(H, spec, f, src, names):
+    """injected = several names at once (each a parameter of f, or a name absent from the signature that **kwargs
+    absorbs): the own signature is f's minus exactly those parameters, whatever the order of the names"""
+    fs = inspect.signature(f)
+    has_varkw = any(q.kind == P.VAR_KEYWORD for q in fs.parameters.values())
+    absent = [n for n in names if n not in fs.parameters]
+    site, clause = 'update_wrapper(injected=)', 'injected_removes_exactly_param'
+    wcl = 'several injected names%s' % (', one absorbed by **kwargs' if absent else '')
+    kwsrc = 'injected=%r' % (list(names),)
+    pre = HDR + src + 'def w(*a, **k): return "token"\n' + 'g = update_wrapper(w, f, %s)\n' % kwsrc
+
+    def w(*a, **k):
+        return 'token'
+    H.ev(key=('multi', spec, tuple(names)), nontrivial=True, part='variants_multi', sample=dict(f=src.split(':\n')[0], kw=kwsrc))
+    try:
+        g = funcutils.update_wrapper(w, f, injected=list(names))
+    except Exception as e:  # noqa
+        if absent and not has_varkw:
+            return          # a name that nothing can absorb may be refused
+        H.fail(clause, site, wcl + '; building raises', (src, kwsrc), repr(e), pre)
+        return
+    ok, gs = H.guard(lambda: inspect.signature(g, follow_wrapped=False), clause, site, wcl + '; signature() raises', (src, kwsrc), pre)
+    if not ok:
+        return
+    want = [q for q in fs.parameters.values() if q.name not in names]
+    H.check(list(gs.parameters.values()) == want, clause, site, wcl, (src, kwsrc),
+            'own signature %s, expected %s' % (gs, fs.replace(parameters=want)),
+            pre + 's = inspect.signature(g, follow_wrapped=False); fs = inspect.signature(f)\n'
+            'assert list(s.parameters.values()) == [p for p in fs.parameters.values() if p.name not in %r], s\n' % (list(names),))
+
+
 def run():
     H = Harness('C13',
                 rule='one evaluation = one (signature, wraps|update_wrapper) signature/metadata comparison, or one '
@@ -291,6 +322,10 @@ def run():
         plain(H, spec, f, src, 'wraps' if n_sig % 2 else 'update_wrapper')
         for n, _ in spec[0] + spec[2]:
             variant(H, spec, f, src, 'inj', n, None)
+        inj_names = [q.name for q in inspect.signature(f).parameters.values()
+                     if q.kind in (P.POSITIONAL_OR_KEYWORD, P.KEYWORD_ONLY)]
+        for pair in itertools.permutations(inj_names + ['zz_absent'], 2):
+            variant_multi(H, spec, f, src, pair)
         variant(H, spec, f, src, 'exp', 'c', None)
         variant(H, spec, f, src, 'exp', 'c', 'dc')
     # functions without a docstring and lambdas: metadata + signature + calls on a few signatures
